@@ -112,25 +112,38 @@ let run_tapchk cid t =
   let ids = take p (fun () -> read_list t) in
   let big = next_int t in
   let idx_of (r : cdata) = match r.idx with Some l -> nats l | None -> [] in
+  let dup_of (r : cdata) = match r.dup, r.idx with
+    | Some ptr, Some ix -> List.map nats (split_by_ptr ptr ix)
+    | _ -> [] in
   let ranks = take p (fun () ->
       expect t "recv_size"; let n = next_int t in
       expect t "L"; let (lr, ls) = read_parcomm t in
       expect t "SS";
+      let sdup = ref [] in
       let spk = (match t.rest with
           | "none" :: _ -> ignore (next t); nopkg
-          | _ -> let (sr, ss) = read_parcomm t in pkg_of sr ss) in
+          | _ -> let (sr, ss) = read_parcomm t in sdup := dup_of sr; pkg_of sr ss) in
       expect t "G"; let (gr, gs) = read_parcomm t in
       expect t "RR"; let (rr, rs) = read_parcomm t in
       { tL = pkg_of lr ls; tL_pos = idx_of lr; tS = spk; tG = pkg_of gr gs; tR = pkg_of rr rs; tR_pos = idx_of rr;
-        t_size = nat_of_int n }) in
+        t_size = nat_of_int n; tS_dup = !sdup; tG_dup = dup_of gr }) in
   let tw = { three_step = three; t_ranks = ranks } in
   let ncol = List.map nats colmaps and nids = List.map nats ids in
-  Printf.printf "%s CHK tapfwd %s\n" cid (b2s (tap_fwd_ok tw nids ncol (nat_of_int big)));
+  Printf.printf "%s CHK tapfwd %s taprev %s\n" cid (b2s (tap_fwd_ok tw nids ncol (nat_of_int big))) (b2s (tap_rev_ok tw nids ncol));
   let pr key f = Printf.printf "%s %s %s\n" cid key
       (String.concat " " (List.mapi (fun q _ -> "@" ^ string_of_int q ^ " " ^ str_ints (f q)) ranks)) in
   pr "FI" (fun q -> tap_forward (-7) tw ids (nat_of_int q));
   let blk = List.map (List.map (fun g -> (10 * g, 10 * g + 1))) ids in
-  pr "FBI" (fun q -> List.concat (List.map (fun (a, b) -> [a; b]) (tap_forward (-7, -7) tw blk (nat_of_int q))))
+  pr "FBI" (fun q -> List.concat (List.map (fun (a, b) -> [a; b]) (tap_forward (-7, -7) tw blk (nat_of_int q))));
+  (* reverse exchanges: same payloads as drv_comm *)
+  let yi = List.mapi (fun pp cm -> List.mapi (fun j _ -> (pp + 1) * 100 + j) cm) colmaps in
+  let ysel = List.mapi (fun pp cm -> List.map (fun c -> if (c + pp) mod 3 = 0 then -1 else c) cm) colmaps in
+  let yz = List.mapi (fun pp cm -> List.mapi (fun j c -> if (c + pp + j) mod 3 = 0 then 0 else -(pp + 1) * 10 - j) cm) colmaps in
+  let add a b = a + b and mx b a = if a > b then a else b and sel b a = if a >= 0 then a else b in
+  pr "RSI" (fun q -> tap_reverse (-7) add 0 add tw yi (List.map (fun g -> 1000 * g) (List.nth ids q)) (nat_of_int q));
+  pr "RM" (fun q -> tap_reverse (-7) mx 0 mx tw yi (List.map (fun _ -> 0) (List.nth ids q)) (nat_of_int q));
+  pr "RL" (fun q -> tap_reverse (-7) sel (-1) sel tw ysel (List.map (fun _ -> -1) (List.nth ids q)) (nat_of_int q));
+  pr "RMN" (fun q -> tap_reverse (-7) mx (-1000000) mx tw yz (List.map (fun _ -> -1000) (List.nth ids q)) (nat_of_int q))
 
 (* cid tracechk P fc[P+1] K {{n cols}xP}xK  then per rank: nev (B | S dst tag | R src tag)*  *)
 let run_tracechk cid t =
